@@ -78,6 +78,36 @@ theorem scaling_refused_iff (a b : Str) : scaling a b = .error .invalidUnit ↔ 
     unfold scaling
     simp [h]
 
+theorem powerText_drop_inj (w₁ w₂ : Str) (h₁ : PowerText w₁) (h₂ : PowerText w₂)
+    (h : w₁.drop 1 = w₂.drop 1) : w₁ = w₂ := by
+  cases h₁ with
+  | none =>
+    cases h₂ with
+    | none => rfl
+    | pow sign d ds hs hd hds => cases sign <;> simp at h
+  | pow sign d ds hs hd hds =>
+    cases h₂ with
+    | none => cases sign <;> simp at h
+    | pow sign' d' ds' hs' hd' hds' =>
+      simp only [List.cons_append, List.drop_succ_cons, List.drop_zero] at h
+      simp [h]
+
+/-- between table atoms (any power text) `scalable` holds exactly for the same base unit and power -/
+theorem scalable_atoms_iff (p₁ p₂ u₁ u₂ w₁ w₂ : Str) (h₁ : p₁ ∈ optPrefixes) (h₂ : p₂ ∈ optPrefixes)
+    (hu₁ : u₁ ∈ units) (hu₂ : u₂ ∈ units) (hw₁ : PowerText w₁) (hw₂ : PowerText w₂) :
+    scalable (p₁ ++ u₁ ++ w₁) (p₂ ++ u₂ ++ w₂) = true ↔ u₁ = u₂ ∧ w₁ = w₂ := by
+  constructor
+  · intro h
+    by_cases hu : u₁ = u₂
+    · by_cases hw : w₁.drop 1 = w₂.drop 1
+      · exact ⟨hu, powerText_drop_inj w₁ w₂ hw₁ hw₂ hw⟩
+      · rw [(not_scalable_atoms_generic p₁ p₂ u₁ u₂ w₁ w₂ h₁ h₂ hu₁ hu₂ hw₁ hw₂ (Or.inr hw)).1] at h
+        cases h
+    · rw [(not_scalable_atoms_generic p₁ p₂ u₁ u₂ w₁ w₂ h₁ h₂ hu₁ hu₂ hw₁ hw₂ (Or.inl hu)).1] at h
+      cases h
+  · rintro ⟨rfl, rfl⟩
+    exact (scaling_atoms_generic p₁ p₂ u₁ w₁ h₁ h₂ hu₁ hw₁).1
+
 /-! ### compound recognition with any power text -/
 
 theorem compoundAt_atoms_generic (p₁ u₁ w₁ p₂ u₂ w₂ : Str) (sep : Char) (tail : Str)
